@@ -23,6 +23,7 @@ def check(run):
     run.attempt(gentest_script.run_rule, run, p, 'C11')
     run.attempt(template, run, p, 'C11')
     run.attempt(flagkw, run, p)
+    run.attempt(refmap, run, p)
     run.attempt(effects, run, p)
     run.attempt(mustemit, run, p, 'C11-MUSTEMIT')
     run.attempt(joinrepr, run, p)
@@ -50,6 +51,68 @@ def backed(run, rid, key, ok, msg, backing, **kw):
         run.ob(rid, key, ok, msg, **kw)
     else:
         run.note(rid, 'shape not recognised, decided by %s alone: %s' % (backing, msg[:160]), fn=kw.get('fn'), node=kw.get('node'))
+
+
+def refmap(run, p):
+    """reference copies of files that share a base name: where they are stored is where the generated test will look"""
+    from ..pyeval import Obj, Model, FakeFS, Raised
+    import posixpath
+    run.rule('C11-REFMAP', 'copy_reference_files, evaluated for runs 1..3 on output files that share a base name (in different '
+                           'directories, differing in case only) with an in-memory file system and a recording copy: every file is copied, '
+                           'no two to the same place, and the place recorded for the generated test (ref_map, else refdir/<name>) is '
+                           'the run-1 copy - under the reference directory itself, not a later run\'s subdirectory that is removed afterwards')
+    c = p.cls('TestGenerator')
+    f = c.methods['copy_reference_files']
+    files = ['/w/job/north/summary.csv', '/w/job/south/summary.csv', '/w/job/east/Summary.CSV', '/w/job/out.txt', '/w/job/a/stdout']
+    o = Obj(c)
+    o.attrs.update(cwd='/w/job', refdir='/w/job/ref/cmd', ref_map={}, reference_files={r: list(files) for r in (1, 2, 3)}, verbose=False)
+    copies = {1: [], 2: [], 3: []}
+    fs = FakeFS({q: 'x' for q in files})
+
+    class Shutil(Model):
+        pass
+    sh = Shutil()
+    n = 0
+    probs = []
+    for r in (1, 2, 3):
+        def copyfile(src, dst, r=r):
+            copies[r].append((src, dst))
+        sh.copyfile = copyfile
+        sh.copy = copyfile
+        sh.copy2 = copyfile
+        I = Interp(p)
+        I.extra_names.update({'os': fs.os(), 'shutil': sh, 'print': _quiet})
+        try:
+            I.call(f, [r], selfobj=o)
+        except Raised as e:
+            probs.append('run %d raises %s' % (r, e))
+        except Unsupported as e:
+            raise AnalysisError('copy_reference_files is not evaluable: %s' % e)
+        n += 1
+        dsts = [d.lower() for _s, d in copies[r]]
+        if sorted(s_ for s_, _d in copies[r]) != sorted(files):
+            probs.append('run %d copies %s' % (r, sorted(s_ for s_, _d in copies[r])))
+        if len(set(dsts)) != len(dsts):
+            probs.append('run %d copies two files to the same place: %s' % (r, sorted(dsts)))
+        want_dir = '/w/job/ref/cmd' if r == 1 else '/w/job/ref/cmd/%d' % r
+        if any(posixpath.dirname(d) != want_dir for _s, d in copies[r]):
+            probs.append('run %d copies outside %s: %s' % (r, want_dir, [d for _s, d in copies[r] if posixpath.dirname(d) != want_dir][:1]))
+    first = dict(copies[1])
+    for q in files:
+        recorded = o.attrs['ref_map'].get(q, '/w/job/ref/cmd/' + posixpath.basename(q))
+        if first.get(q) is not None and recorded != first[q]:
+            probs.append('the test for %s will read %s, the run-1 copy is %s' % (q, recorded, first[q]))
+    run.ob('C11-REFMAP', '%s::%s' % (f.rel, f.short), not probs,
+           'five output files, three of them called summary.csv up to case, one called stdout: %s' % ('; '.join(probs[:2]) or
+                                                                                                     'each run-1 copy is where the test will look'), fn=f)
+    run.floor('C11-REFMAP', n, 3)
+
+
+def _quiet(*a, **k):
+    return None
+
+
+_quiet._pyeval_model = True
 
 
 def flagkw(run, p):
